@@ -12,12 +12,16 @@ META = {
              "compact_stale_temp_resurrects / not_preserves_of_stale: an entry point that does not, appends to a parseable stale temp "
              "and resurrects its keys; compact_crash_atomic: with fsync-before-rename every crash image (torn writes, lost unsynced "
              "data with kept metadata) has the old main file or is the finished compaction; compact_no_fsync_loses refutes it "
-             "otherwise; classify_sound decides from the extracted facts.  The byte-level codec is a parameter (assumptions A1/A2 "
+             "otherwise; compaction_anywhere: compactions inserted anywhere between the writing sessions of a history leave a file that "
+             "loads to the replay of everything written; compaction_mid_session: the same at the granularity of single chronicler calls "
+             "(Write/Sync/Close, locked compactions on an open writer that still buffers entries, offline compactions while no writer "
+             "is open) — both are clauses of Holds; classify_sound decides from the extracted facts (incl. the block-reader facts of "
+             "C04 and the count-bound flush rule the model relies on).  The byte-level codec is a parameter (assumptions A1/A2 "
              "in Hv/Storage/Disk.lean), exercised by the correspondence run."),
     "note": ("Trusted: Lean kernel (propext, Classical.choice, Quot.sound); extract/c02.go+c03.go; harness/c02.go+c03.go (strace parser, "
              "image materialiser); crash model of Hv/Storage/Disk.lean (prefix order, fsync as barrier, metadata may outlive data); "
-             "trigger conditions of maybeCompactInline are not modelled (the trace says when a compaction ran). "
-             "compaction_anywhere (histories with interleaved compactions) is not proved as a theorem; it is exercised by the runs."),
+             "trigger conditions of maybeCompactInline are not modelled (the trace says when a compaction ran); a block holds at "
+             "most 65535 entries (MkOk is assumed for such batches only; the writer model flushes at that count, fact flushesAtCountBound)."),
     "design_ref": "§8 C03",
 }
 
@@ -97,11 +101,13 @@ def run(ctx):
     for _, _, cc in corrs:   # keep replays small: hex payloads are not needed to re-run a case script
         pass
     K.decide_standard(ctx, corrs, FINDINGS)
+    covered = S.impl_reported(ctx, spec_violated)
     K.report_mismatch(ctx, spec_violated)
     # Spec oracle over every implementation reply (independent of the model)
     bad = spec_scan(c.ops, c.impl) if not c.err else []
     mism = set(c.mismatch)
-    unflagged = [h for h in S.relevant_hits(bad, c.flags, K.known_ids("C03"), CLASSES, -1) if h[0] not in mism]
+    unflagged = [h for h in S.relevant_hits(bad, c.flags, K.known_ids("C03"), CLASSES, -1)
+                 if not (covered and h[0] in mism)]
     if unflagged:
         i, why, _ = unflagged[0]
         rep = K.case_replay(c, K.case_of(c, i), upto=i)
